@@ -39,7 +39,9 @@ class Firmware:
         self.accepted = []                     # commands accepted by the firmware
         self.accepted_numbers = []
         self.accepted_job = []                 # bodies of accepted numbered lines
-        self.last_n = None                     # last accepted line number
+        # Marlin boots with line counter 0: the first numbered line it accepts
+        # without an M110 reset is N1, which is why hosts send "M110 N-1" first
+        self.last_n = 0                        # last accepted line number
         self.tx_index = 0                      # numbered job-line transmissions seen
         self.transmissions = []                # (tx_index, n, body, corrupted, ok_checksum)
         self.resend_requests = []              # (tx_index_at_request, requested_n)
@@ -56,7 +58,10 @@ class Firmware:
     def open(self):
         with self.lock:
             self.opened = True
-            if self.greeting:
+            if isinstance(self.greeting, (list, tuple)):
+                for line in self.greeting:      # several boot lines
+                    self._reply(line)
+            elif self.greeting:
                 self._reply(self.greeting)
 
     def _reply(self, text, polls=None, gate=None):
